@@ -41,9 +41,6 @@ def Version.ofName (s : String) : Version :=
   else if s = "V1_0" then .v10 else if s = "Ssl3_0" then .ssl30 else if s = "Ssl2_0" then .ssl20
   else .unknown 0
 
-/-- `impl Display for TlsVersion` (arms regenerated from the source). -/
-def Version.render (v : Version) : String := (versionDisplay.lookup v.name).getD "??"
-
 /-- `tls::Signature`. `sni`/`alpn` hold the UTF-8 bytes of the `String`. -/
 structure Signature where
   version : Version
@@ -56,26 +53,36 @@ structure Signature where
   alpn : Option Bytes
   deriving DecidableEq, Repr, Inhabited
 
+/-- text is built as `List Char` (converted to `String` by the driver) -/
+abbrev Str := List Char
+
 structure Ja4Payload where
-  a : String
-  b : String
-  c : String
-  full : String
-  raw : String
+  a : Str
+  b : Str
+  c : Str
+  full : Str
+  raw : Str
   deriving DecidableEq, Repr, Inhabited
 
+/-- `impl Display for TlsVersion` (arms regenerated from the source). -/
+def Version.render (v : Version) : Str := ((versionDisplay.lookup v.name).getD "??").toList
+
 /-- `format!("{n:0wx}")` for `n < 16^w` (the arguments are `u16`, `w` = 4): exactly `w` digits. -/
-def hexW (w n : Nat) : String :=
-  String.ofList ((List.range w).reverse.map (fun i => Nat.digitChar (n / 16 ^ i % 16)))
+def hexW (w n : Nat) : Str := (List.range w).reverse.map (fun i => Nat.digitChar (n / 16 ^ i % 16))
 /-- `format!("{n:0w}")` for `n < 10^w` (the arguments are `len.min(99)`, `w` = 2). -/
-def decW (w n : Nat) : String :=
-  String.ofList ((List.range w).reverse.map (fun i => Nat.digitChar (n / 10 ^ i % 10)))
+def decW (w n : Nat) : Str := (List.range w).reverse.map (fun i => Nat.digitChar (n / 10 ^ i % 10))
 
 def isGrease (v : Nat) : Bool := greaseValues.contains v
 /-- `filter_grease_values` -/
 def filterGrease (l : List Nat) : List Nat := l.filter (fun v => !isGrease v)
 
-def hexList (l : List Nat) : String := ",".intercalate (l.map (hexW hexWidth))
+/-- `.collect::<Vec<String>>().join(sep)` -/
+def joinWith (sep : Str) : List Str → Str
+  | [] => []
+  | [a] => a
+  | a :: b :: r => a ++ sep ++ joinWith sep (b :: r)
+
+def hexList (l : List Nat) : Str := joinWith [','] (l.map (hexW hexWidth))
 
 def isCont (b : UInt8) : Bool := decide (0x80 ≤ b.toNat) && decide (b.toNat < 0xC0)
 def asciiOr9 (b : UInt8) : Char := if b.toNat < 0x80 then Char.ofNat b.toNat else '9'
@@ -90,13 +97,13 @@ def firstLastAlpn (s : Bytes) : Char × Char :=
     let nChars := (s.filter (fun b => !isCont b)).length
     (asciiOr9 b0, if nChars ≤ 1 then '0' else asciiOr9 (s.getLastD 0))
 
-def strBytes (s : String) : Bytes := s.toList.map (fun c => UInt8.ofNat c.toNat)
-def hexOfBytes (b : Bytes) : List Char :=
+/-- bytes of an ASCII text -/
+def strBytes (s : Str) : Bytes := s.map (fun c => UInt8.ofNat c.toNat)
+def hexOfBytes (b : Bytes) : Str :=
   b.flatMap (fun x => [Nat.digitChar (x.toNat / 16), Nat.digitChar (x.toNat % 16)])
 
 /-- `hash12`: `format!("{:x}", Sha256::digest(input))[..12]` -/
-def hash12 (sha : Bytes → Bytes) (s : String) : String :=
-  String.ofList ((hexOfBytes (sha (strBytes s))).take hashLen)
+def hash12 (sha : Bytes → Bytes) (s : Str) : Str := (hexOfBytes (sha (strBytes s))).take hashLen
 
 def sortNat (l : List Nat) : List Nat := l.mergeSort (fun a b => decide (a ≤ b))
 
@@ -105,20 +112,20 @@ def generateJa4 (sha : Bytes → Bytes) (s : Signature) (original : Bool) : Ja4P
   let fc := filterGrease s.ciphers
   let fe := filterGrease s.extensions
   let fs := filterGrease s.sigAlgs
-  let sniInd := if s.sni.isSome then "d" else "i"
+  let sniInd : Str := if s.sni.isSome then ['d'] else ['i']
   let cc := decW countWidth (min s.ciphers.length cipherCountCap)
   let ec := decW countWidth (min s.extensions.length extCountCap)
   let al := match s.alpn with | some a => firstLastAlpn a | none => ('0', '0')
-  let a := "t" ++ s.version.render ++ sniInd ++ cc ++ ec ++ String.ofList [al.1, al.2]
+  let a := ['t'] ++ s.version.render ++ sniInd ++ cc ++ ec ++ [al.1, al.2]
   let cb := if original then fc else sortNat fc
   let b := hexList cb
   let ce := if original then fe else sortNat (fe.filter (fun e => !sortedDropIds.contains e))
   let es := hexList ce
   let ss := hexList fs
-  let c := if ss.isEmpty then es else if es.isEmpty then ss else es ++ "_" ++ ss
+  let c := if ss.isEmpty then es else if es.isEmpty then ss else es ++ ['_'] ++ ss
   { a := a, b := b, c := c,
-    full := a ++ "_" ++ hash12 sha b ++ "_" ++ hash12 sha c,
-    raw := a ++ "_" ++ b ++ "_" ++ c }
+    full := a ++ ['_'] ++ hash12 sha b ++ ['_'] ++ hash12 sha c,
+    raw := a ++ ['_'] ++ b ++ ['_'] ++ c }
 
 /-! ## nom primitives (on `List UInt8`, `Option` = `Ok`/`Error|Incomplete` under `complete`) -/
 
